@@ -40,3 +40,6 @@ def run(ctx, R):
         genreset.rule_gen_reset(ctx, R, arch_)
     dsinit.rule_initsel(ctx, R, F)   # the compiled SuperscalarHash / init loop is regenerated at every initCache: no code of an earlier key survives a re-key
     a64patch.rule_patchlen(ctx, R)
+    genreset.rule_ctor_init(ctx, R, 'x86')
+    genreset.rule_ctor_init(ctx, R, 'a64')
+    genreset.rule_ctor_init(ctx, R, 'rv64')
